@@ -492,7 +492,7 @@ pub fn check_main(a: CheckArgs) -> i32 {
             "coverage": {
                 "evaluations": total_runs,
                 "distinct_nontrivial": fp_nontrivial.len(),
-                "rule": "An evaluation is one simulated execution: a list of whole-file compilations (parse > resolver > VueJsxTransformVisitor > codegen) run on 1-4 worker OS threads that are released one at a time by a seeded scheduler, with faults and environment noise, every non-faulted task compared byte-for-byte (code, binding signature, diagnostics) with the same task run alone; plus one evaluation per solo run of a workload task (each task is run alone in 3 different child processes with different hash keys, each time in its own forked process). Executions come from four strata: solo table x processes; systematic single-crash sweep [t crashed at step k; t; u]; systematic single-preemption sweep (A parked at step k, B runs to completion, A resumes); seeded random/PCT search. Two executions are the same interleaving when they have the same task list and the same sequence of (task, task-local step, site) at which control changed hands plus the same faults fired; distinct_nontrivial counts distinct interleavings among executions with at least one switch away from a still-running task or at least one fault fired. The workload is fixed (repository fixtures + /verif/workload); the search is over schedules and faults, not programs.",
+                "rule": "An evaluation is one simulated execution: a list of whole-file compilations (parse > resolver > VueJsxTransformVisitor, constructed directly or through the plugin entry function > codegen) run on 1-4 worker OS threads that are released one at a time by a seeded scheduler, with faults and environment noise, every non-faulted task compared byte-for-byte (code, binding signature, diagnostics, span list) with the same task run alone; plus one evaluation per solo run of a task (each task of the fixed workload is run alone in 2-3 different child processes with different hash keys, each generated module in 2, each time in its own forked process). Executions come from eight strata: solo table x processes; systematic single-crash sweep [t crashed at step k; t or a sibling of t; u or t]; systematic single-preemption sweep (A parked at step k, B runs to completion, A resumes); A-B-A sibling sequences; duels of one module under two option sets; long single-process histories; freshly generated modules (gen); seeded random/PCT search. Two executions are the same interleaving when they have the same task list and the same sequence of (task, task-local step, site) at which control changed hands plus the same faults fired; distinct_nontrivial counts distinct interleavings among executions with at least one switch away from a still-running task or at least one fault fired. The workload is the repository fixtures + /verif/workload (fixed) + modules drawn from the run PRNG in stratum gen; the search is over schedules, faults and - in gen - the drawn modules.",
                 "samples": samples,
                 "strata_runs": runs,
                 "runs_per_host_dimension": dims,
@@ -538,7 +538,7 @@ pub fn check_main(a: CheckArgs) -> i32 {
                 "stubbed": ["host thread pool + scheduler (the simulator)", "shared comments store (Mutex<BTreeMap> implementation of the Comments trait)", "diagnostics Emitter", "getrandom (seed-derived)", "swc_core::plugin (the #[plugin_transform] macro and the host-call proxies TransformPluginProgramMetadata / PluginCommentsProxy): native stand-ins, the WASM export and its host imports cannot run here"],
             },
             "assumptions": [
-                "totality (T) is decided on the fixed workload only, not over the input space",
+                "totality (T) is decided on the fixed workload and sampled on the modules stratum gen draws; it is not decided over the input space",
                 "stack depth as a resource is not modelled; recursion through hooked functions is bounded by a step budget instead",
                 "the address space is pinned (no ASLR, every execution forked from one memory image, threads started one at a time): address-dependent behaviour replays exactly, but only the heap layouts the explored plans produce are seen",
                 "worker stacks of 2 MiB are assumed sufficient for legitimate recursion (every workload task survives 1 MiB on the unchanged tree)",
